@@ -210,8 +210,17 @@ def shared_table_rule(R7, mods):
                                      'later call sees the changed table' % (fn.name, r, u(shared[-1].value), what), where(m, n), witness='lifting popad once makes mov eax, ebx lift to edi = esp'
                                      if fn.name == 'popad' else None)
                 elif r in glob and r not in localnames:
+                    verdict = _result_cache_verdict(m, fn, r, mods)
+                    if verdict == 'sound-cache':
+                        # a result cache that stores and hands out copies only: results do not depend on it
+                        R7.note('%s fills the module-level cache %s; every object stored in it or handed out of it is a copy, or no caller edits what it gets' % (fn.name, r))
+                        continue
                     bad = True
-                    R7.violation(inst, 'shared-table:%s:%s:%s' % (fn.name, u(tgt), what), '%s mutates the module-level object %s in place (%s)' % (fn.name, u(tgt), what), where(m, n))
+                    if verdict is not None:
+                        R7.violation(inst, 'shared-table:%s:%s:cache-hands-out' % (fn.name, r), '%s keeps its results in the module-level cache %s and %s; %s: the next call with the '
+                                     'same argument gets the edited object' % (fn.name, r, verdict[0], verdict[1]), where(m, n), witness="asm('cmp al, -2') then asm('cmp eax, -2')")
+                    else:
+                        R7.violation(inst, 'shared-table:%s:%s:%s' % (fn.name, u(tgt), what), '%s mutates the module-level object %s in place (%s)' % (fn.name, u(tgt), what), where(m, n))
             if not bad:
                 R7.ok(inst, nontrivial=(len(R7.nontrivial) < 400))
 
@@ -387,6 +396,66 @@ def memoised_results_rule(R, mods):
                         witness="asm('inc BYTE PTR [eax]') after asm('prefetcht0 BYTE PTR [eax]')")
     for name, desc in sorted(memo.items()):
         R.ok('cached:%s' % name, sample='%s: callers scanned for edits of its results' % desc)
+
+
+def _result_cache_verdict(m, fn, name, mods):
+    """Is the module-level object `name` a result cache of `fn` -- a dict that starts empty, that only fn touches, by `name[k] = v`, `.clear()`, `.pop(..)` and reads?
+    None: not a cache (any mutation of it is shared state).  'sound-cache': what is stored and what is returned are never the same object as a returned / stored one
+    (copies: dict(x), list(x), x.copy(), x[:], copy.copy / deepcopy), or no caller of fn edits its result.  Otherwise (how the object escapes, which caller edits it)."""
+    init = [st for st in m.tree.body if isinstance(st, ast.Assign) and any(isinstance(t, ast.Name) and t.id == name for t in st.targets)]
+    if len(init) != 1 or not (isinstance(init[0].value, ast.Dict) and not init[0].value.keys or (isinstance(init[0].value, ast.Call) and u(init[0].value.func) in ('dict', 'OrderedDict', 'collections.OrderedDict')
+                                                                                                  and not init[0].value.args)):
+        return None
+    users = [f2 for _, f2 in all_functions(m) if any(isinstance(x, ast.Name) and x.id == name for x in ast.walk(f2))]
+    if users != [fn]:
+        return None
+    stored = []
+    for n in ast.walk(fn):
+        if isinstance(n, ast.Call) and isinstance(n.func, ast.Attribute) and isinstance(n.func.value, ast.Name) and n.func.value.id == name:
+            if n.func.attr not in ('clear', 'pop', 'popitem', 'get', 'keys', 'values', 'items', 'setdefault', '__contains__', 'move_to_end'):
+                return None
+            if n.func.attr == 'setdefault' and len(n.args) == 2:
+                stored.append(n.args[1])
+        if isinstance(n, ast.Assign):
+            for tg in n.targets:
+                if isinstance(tg, ast.Subscript) and isinstance(tg.value, ast.Name) and tg.value.id == name:
+                    stored.append(n.value)
+        if isinstance(n, ast.AugAssign) and isinstance(n.target, ast.Subscript) and isinstance(n.target.value, ast.Name) and n.target.value.id == name:
+            return None
+
+    def is_copy(e):
+        if isinstance(e, ast.Call):
+            f = u(e.func)
+            if f in ('dict', 'list', 'tuple', 'set', 'copy.copy', 'copy.deepcopy', 'deepcopy') and e.args:
+                return True
+            if isinstance(e.func, ast.Attribute) and e.func.attr in ('copy', 'deepcopy'):
+                return True
+        if isinstance(e, ast.Subscript) and isinstance(e.slice, ast.Slice):
+            return True
+        if isinstance(e, (ast.Constant, ast.Tuple)):
+            return True
+        return False
+    stored_names = set(e.id for e in stored if isinstance(e, ast.Name))
+    escapes = None
+    for r_ in [x for x in ast.walk(fn) if isinstance(x, ast.Return) and x.value is not None]:
+        v = r_.value
+        if isinstance(v, ast.Name) and v.id in stored_names:
+            escapes = 'returns the very object it has stored (`%s`) on the path that fills the cache' % u(r_)
+        elif isinstance(v, ast.Subscript) and isinstance(v.value, ast.Name) and v.value.id == name and not isinstance(v.slice, ast.Slice):
+            escapes = 'returns the cached object itself (`%s`)' % u(r_)
+        elif isinstance(v, ast.Call) and isinstance(v.func, ast.Attribute) and isinstance(v.func.value, ast.Name) and v.func.value.id == name and v.func.attr in ('get', 'setdefault', 'pop'):
+            escapes = 'returns the cached object itself (`%s`)' % u(r_)
+    if any(not is_copy(e) and not isinstance(e, ast.Name) for e in stored):
+        pass
+    if escapes is None:
+        return 'sound-cache'
+    memo = {fn.name: '%s.%s (cache %s)' % (m.name, fn.name, name)}
+    for m2 in mods:
+        eds = _memo_edits(m2.tree, memo)
+        if eds:
+            f2, n2, desc = eds[0]
+            return escapes, '%s.%s edits %s' % (m2.name, f2.name, desc)
+    return 'sound-cache'
 
 
 READONLY_METHODS = ('__str__', 'breakflow', 'splitflow', 'dstflow', 'getdstflow', 'getnextflow', 'is_subcall', 'is_mem')
